@@ -291,7 +291,7 @@ func NewRunner(spec *RunSpec, c *model.Corpus) *Runner {
 			if op.Kind == "legacy" && st.Arg > 0 {
 				r.op(uint64(st.Arg - 1))
 			}
-			for _, e := range []string{"size", "enc", "dec"} {
+			for _, e := range []string{"size", "enc", "dec", "size/v", "enc/v", "dec/v"} {
 				k := op.Type + "/" + e
 				if _, ok := r.c13idx[k]; !ok {
 					r.c13idx[k] = len(r.c13first)
@@ -1175,7 +1175,13 @@ func (r *Runner) c13check(op *OpSpec, st *Step, entry string, res *Rec, a *outAr
 		}
 	}
 	// the same on every call
-	idx, ok := r.c13idx[op.Type+"/"+entry]
+	// "the same on every call": the same call, i.e. the same entry point with the same kind of argument (a message
+	// may legitimately mention whether it was given T or *T)
+	form := ""
+	if op.ByValue {
+		form = "/v"
+	}
+	idx, ok := r.c13idx[op.Type+"/"+entry+form]
 	if !ok {
 		return
 	}
